@@ -257,6 +257,7 @@ def run(prog, rep):
 
     # ---------------------------------------------------------------- LOOP-1
     loop_carried_state(prog, rep, [pt], "LOOP-1")
+    csv_options_rule(prog, rep, "CSV-1")
 
     # ----------------------------------------------------------------- ORD-3
     cardinality_roundtrip(prog, rep, which=("xml",))
@@ -366,3 +367,30 @@ def _root_tag_expr(prog, mod, func, expr, exact):
     if exact and not (len(parts) == 3 and v2 == '">'):
         return False
     return ct.resolves_to_format_version(prog, mod, v1)
+
+
+def csv_options_rule(prog, rep, rule="CSV-1"):
+    """writer and reader of the value lists use one csv dialect and nothing else"""
+    from ..model import canonical_name
+    rep.rule(rule, "every csv.writer / csv.reader in odml/tools/xmlparser.py is built with the same `dialect` and with no other formatting "
+                   "parameter: a parameter given on one side only (lineterminator, quoting, escapechar, delimiter, quotechar) changes what the "
+                   "writer quotes or what the reader splits, and a value list no longer reads back as written")
+    mod = prog.module_of("tools.xmlparser")
+    sites = []
+    for f in list(mod.functions.values()) + [m for c in mod.classes.values() for m in c.methods.values()]:
+        for c in calls_in(f.node):
+            cn = canonical_name(prog, f, c.func)
+            if cn in ("csv.writer", "csv.reader", "csv.DictReader", "csv.DictWriter"):
+                sites.append((f, c, cn))
+    rep.floor(rule, len(sites), 2, "csv reader / writer constructions")
+    dialects = set()
+    for f, c, cn in sites:
+        kws = dict((k.arg, k.value) for k in c.keywords if k.arg)
+        star = [k for k in c.keywords if k.arg is None]
+        d = kws.get("dialect") or (c.args[1] if len(c.args) > 1 else None)
+        dialects.add(unparse(d) if d is not None else "<default>")
+        extra = sorted(k for k in kws if k != "dialect")
+        rep.check(not extra and not star, rule, "%s: %s(...) without formatting overrides" % (f.short, cn), "dialect only",
+                  "%s builds %s with %s: writer and reader no longer use the same csv conventions" % (f.short, cn, extra or "**options"), where(f, c),
+                  witness="a multi-valued text Property whose second value contains a line break: the values after it are lost on load")
+    rep.check(len(dialects) == 1, rule, "one csv dialect on both sides", str(sorted(dialects)), "reader and writer use different dialects: %s" % sorted(dialects), mod.path)
